@@ -3,6 +3,7 @@ import PycsepVerif.Soft64
 import PycsepVerif.Drive.Soft
 import PycsepVerif.RealOps
 import PycsepVerif.Proofs.RealInst
+import PycsepVerif.Proofs.Soft64
 import PycsepVerif.Model.Ecdf
 import PycsepVerif.Proofs.Ecdf
 import PycsepVerif.Properties.C09
